@@ -292,6 +292,10 @@ func (vt *Model) decrqm(pd int) {
 		case false:
 			ps = 2
 		}
+	case 2027:
+		// graphemes are always clustered and measured the Unicode way
+		// (the parser delivers whole clusters): permanently set
+		ps = 3
 	}
 	fmt.Fprintf(vt.pty, "\x1B[?%d;%d$y", pd, ps)
 }
